@@ -116,7 +116,8 @@ func (h *heldMetricsStore[T]) tryCreate(labels []string, hash uint64, newPromMet
 	// TODO: replace with [][]byte to make it explicit
 	labelsCopy := make([]string, len(labels))
 	for i := range labels {
-		labelsCopy[i] = strings.Clone(labels[i])
+		// label values come from event fields: prometheus panics on a value that is not valid UTF-8
+		labelsCopy[i] = strings.Clone(strings.ToValidUTF8(labels[i], "\uFFFD"))
 	}
 	labels = labelsCopy
 
